@@ -6,13 +6,16 @@ from .. import boot  # noqa: F401
 from .. import world as W
 from ..rawpeer import RawPeer
 from ..runner import sig_of
+from ..rawpeer import ProtocolGarbage as aioftp_garbage
 import aioftp
 
 PROPERTY = "C20"
 LEVEL = "exploration"
 RULE = ("passwords from a generator biased to blanks (inside, leading), non-ASCII, '%s', '%(x)s', '{}', backslashes, quotes, "
-        "1-2 character and long strings; for each, six login scenarios (aioftp client accepted / rejected; raw peer with verb "
-        "spelled PASS / pass / PaSs accepted and rejected; PASS out of sequence; re-login) with every LogRecord of every logger "
+        "1-2 character and long strings; for each, twelve login scenarios (aioftp client accepted / rejected / followed by "
+        "commands; raw peer with verb spelled PASS / pass / PaSs accepted and rejected; PASS out of sequence; re-login; the user's "
+        "or the server's connection limit reached by password sessions and one more login; back-end failure, unknown verb and "
+        "undecodable bytes after an accepted login; connection reset right after PASS) with every LogRecord of every logger "
         "captured at DEBUG.  (a) a distinctive password (>= 4 chars, absent from the log of the same scenario run with "
         "another password) is never a substring of any record (message, args, exception text); (b) non-interference: two runs "
         "that differ only in the password (same length) produce identical log streams.  distinct = distinct (password class, "
@@ -26,7 +29,8 @@ EXHAUSTIVE = {"quick": False, "thorough": False}
 ALPHA = "abcdefghijklmnopqrstuvwxyzABCDEFGHIJKLMNOPQRSTUVWXYZ0123456789"
 SPECIALS = [" ", "  ", "%s", "%d", "%(x)s", "{}", "{0}", "\\", "\\n", "\"", "'", ";", "=", "-", "*", "***", "ü", "ß", "пароль", "密", "😀", "\t",
             ":", "@", "/", "..", "PASS ", "pass", "230", "%", "%%"]
-SCENARIOS = ["client_ok", "client_bad", "raw_PASS_ok", "raw_pass_ok", "raw_PaSs_bad", "raw_out_of_sequence", "raw_relogin"]
+SCENARIOS = ["client_ok", "client_bad", "raw_PASS_ok", "raw_pass_ok", "raw_PaSs_bad", "raw_out_of_sequence", "raw_relogin",
+             "raw_user_limit", "raw_server_limit", "raw_errors_after_login", "raw_cut_in_pass", "client_ok_ops"]
 
 
 def gen_password(rng):
@@ -65,12 +69,63 @@ def twin(p, rng):
 
 async def scenario(net, hyg, name, password):
     stored = password if not name.endswith("_bad") else password + "X"
-    users = [aioftp.User("alice", stored, base_path="/"), aioftp.User("bob", None, base_path="/")]
-    w = W.World(net, users=users)
+    users = [aioftp.User("alice", stored, base_path="/", **({"maximum_connections": 1} if name == "raw_user_limit" else {})),
+             aioftp.User("bob", None, base_path="/")]
+    w = W.World(net, users=users, **({"maximum_connections": 1} if name == "raw_server_limit" else {}))
     await w.start()
     outcome = []
     try:
-        if name.startswith("client"):
+        if name == "client_ok_ops":
+            c = aioftp.Client(path_io_factory=aioftp.MemoryPathIO)
+            await c.connect("127.0.0.1", 2121)
+            await c.login("alice", password)
+            await c.make_directory("/d")
+            outcome.append(len(await c.list("/")))
+            try:
+                await c.change_directory("/nope")
+            except aioftp.StatusCodeError as e:
+                outcome.append("rejected:" + str(e.received_codes[-1]))
+            await c.quit()
+        elif name in ("raw_user_limit", "raw_server_limit"):
+            # the limit of the user / of the server is reached by sessions that logged in with the password
+            p1 = RawPeer(net, 2121)
+            await p1.connect()
+            outcome.append((await p1.cmd("USER alice")).code)
+            outcome.append((await p1.cmd(f"PASS {password}")).code)
+            p2 = RawPeer(net, 2121)
+            try:
+                await p2.connect()
+                r = await p2.cmd("USER alice")
+                outcome.append(r.code if r not in (None, "EOF") else str(r))
+                if r not in (None, "EOF"):
+                    r = await p2.cmd(f"PASS {password}")
+                    outcome.append(r.code if r not in (None, "EOF") else str(r))
+            except (ConnectionError, OSError, aioftp_garbage) as e:
+                outcome.append(type(e).__name__)
+            p2.cut("fin")
+            await p1.cmd("QUIT")
+            p1.cut("fin")
+        elif name == "raw_errors_after_login":
+            # after an accepted login: a back-end failure (451), an unknown verb, then undecodable bytes (the dispatcher
+            # logs the exception and drops the session)
+            w.ctl.fail = lambda op, path, n, sess=None: OSError(5, "Input/output error") if op == "mkdir" else None
+            p = RawPeer(net, 2121)
+            await p.connect()
+            outcome.append((await p.cmd("USER alice")).code)
+            outcome.append((await p.cmd(f"PASS {password}")).code)
+            outcome.append((await p.cmd("MKD /x")).code)
+            outcome.append((await p.cmd("FOO bar")).code)
+            p.send_raw(b"CWD \xff\xfe\r\n") if hasattr(p, "send_raw") else p.writer.write(b"CWD \xff\xfe\r\n")
+            r = await p.read_reply(wait=2)
+            outcome.append(r.code if r not in (None, "EOF") else str(r))
+            p.cut("fin")
+        elif name == "raw_cut_in_pass":
+            p = RawPeer(net, 2121)
+            await p.connect()
+            outcome.append((await p.cmd("USER alice")).code)
+            p.writer.write(f"PASS {password}\r\n".encode())
+            p.cut("rst")
+        elif name.startswith("client"):
             c = aioftp.Client(path_io_factory=aioftp.MemoryPathIO)
             await c.connect("127.0.0.1", 2121)
             try:
